@@ -148,6 +148,8 @@ pub fn qsieve(
         let mut do_sieve_fwd = || {
             if s_fwd.blk_no == qs.nblocks() {
                 next_lgblock(&mut roots_fwd1, &mut roots_fwd2);
+                #[cfg(yamaquasi_verif)]
+                verif_access::observe_roots(false, &roots_fwd1, &roots_fwd2);
                 s_fwd.rehash([&roots_fwd1[..], &roots_fwd2[..]]);
             }
             for _ in 0..qs.nblocks() {
@@ -159,6 +161,8 @@ pub fn qsieve(
         let mut do_sieve_bck = || {
             if s_bck.blk_no == qs.nblocks() {
                 next_lgblock(&mut roots_bck1, &mut roots_bck2);
+                #[cfg(yamaquasi_verif)]
+                verif_access::observe_roots(true, &roots_bck1, &roots_bck2);
                 s_bck.rehash([&roots_bck1[..], &roots_bck2[..]]);
             }
             for _ in 0..qs.nblocks() {
@@ -480,5 +484,20 @@ pub mod verif_access {
     /// (sqrt base, only_odds, blocks per large block)
     pub fn sieve_params(s: &SieveQS) -> (I256, bool, usize) {
         (s.nsqrt, s.only_odds, s.nblocks())
+    }
+
+    thread_local! {
+        /// Observer of the root tables qsieve() installs after each large-block shift:
+        /// (backward sieve?, first roots, second roots). Not set outside the harness.
+        pub static ROOTS_OBSERVER: std::cell::RefCell<Option<Box<dyn FnMut(bool, &[u32], &[u32])>>> =
+            std::cell::RefCell::new(None);
+    }
+
+    pub(super) fn observe_roots(bck: bool, r1: &[u32], r2: &[u32]) {
+        ROOTS_OBSERVER.with(|o| {
+            if let Some(f) = o.borrow_mut().as_mut() {
+                f(bck, r1, r2)
+            }
+        });
     }
 }
